@@ -93,17 +93,24 @@ def run(tier):
             recs.append({'k': 'pass', 'ev': lang.cps(c), 'code': lang.cps(r), 'out': out})
             desc.append('get_specific_event_code(%r, %r, %r) -> %s %r' % (c, g, ag, out, r))
         m = sys.modules
-        tables = {
-            'combined events': [o['event_code'] for o in m['athlib.athlon_score']._scoring_table],
-            'hungarian': [f[2] for f in m['athlib.hungarian_score'].FACTORS],
-            'tyrving': [e for gg in m['athlib.tyrving_score']._tyrvingTables.values() for e in gg],
-            'quadkids': [e for gg in m['athlib.qkids_score']._qkidsTables.values() for e in gg],
-            'sportshall': list(m['athlib.sportshall_score'].load_data().keys()),
-            'bulgarian': [k[4:] for k in m['athlib.bulgarian_score'].scores],
+        # the tables are reached by their module-level names; one that is no longer kept under its name is not observed
+        sources = {
+            'combined events': lambda: [o['event_code'] for o in m['athlib.athlon_score']._scoring_table],
+            'hungarian': lambda: [f[2] for f in m['athlib.hungarian_score'].FACTORS],
+            'tyrving': lambda: [e for gg in m['athlib.tyrving_score']._tyrvingTables.values() for e in gg],
+            'quadkids': lambda: [e for gg in m['athlib.qkids_score']._qkidsTables.values() for e in gg],
+            'sportshall': lambda: list(m['athlib.sportshall_score'].load_data().keys()),
+            'bulgarian': lambda: [k[4:] for k in m['athlib.bulgarian_score'].scores],
+            'wma 2015': lambda: [r[0] for gg in 'mf' for r in athlib.ag2015.get_data()[gg]],
+            'wma 2023': lambda: [r[0] for gg in 'mf' for r in athlib.ag2023.get_data()[gg]],
+            'wma combined events': lambda: [r[0] for gg in 'mf' for r in athlib.aag.get_data()[gg]],
         }
-        for nm, ag in (('wma 2015', athlib.ag2015), ('wma 2023', athlib.ag2023), ('wma combined events', athlib.aag)):
-            d = ag.get_data()
-            tables[nm] = [r[0] for gg in 'mf' for r in d[gg]]
+        tables = {}
+        for nm, src in sources.items():
+            try:
+                tables[nm] = list(src())
+            except Exception as e:
+                rep.notes.append('the %s table could not be read under its module-level name (%s): its keys are not observed in this run' % (nm, type(e).__name__))
         nkeys = 0
         for nm, keys in tables.items():
             for kx in sorted({str(x) for x in keys}):
